@@ -856,6 +856,14 @@ def generate_tlv(
     tag_padding: str = ' ',
     len_padding: str = '0',
 ) -> str:
+    if isinstance(len_padding, str) and len(len_padding) == 1:
+        # parse_tlv reads the length field with int(): the padding must be something int() reads through
+        try:
+            readable = int(f"{len_padding}{len_padding}1") == 1
+        except ValueError:
+            readable = False
+        if not readable:
+            raise_exception(f"Length padding {len_padding!r} would not let parse_tlv read the length back: use '0' or a blank")
     # for compatibility with python 3.7
     return ''.join(
         ''.join((
